@@ -81,6 +81,30 @@ T = {
  'C05-c': ('C05', 'validate_commitment_signed accepts FEWER HTLC signatures than non-dust HTLCs (!= became >): the node stores a holder commitment it cannot fully enforce and revokes its previous, fully signed state',
            'a commitment_signed carrying too few htlc_signatures', 'demo_c05b',
            'C05 (chan): probe_bad_cs (drop last / drop all / foreign / swapped / surplus HTLC signatures x 1,2,4 HTLCs): "bad commitment_signed probe (kind 0, 1 HTLCs) panicked: assertion left == right failed" (the monitor debug assertion on the resulting update; in release the revoke_and_ack-sent clause fires). First run missed it: only corrupted revoke_and_ack probes existed'),
+
+ 'C13-b': ('C13', 'UnsignedChannelUpdate reader tests `message_flags == 0` instead of bit 0 (must_be_one): a channel_update with must_be_one clear but another flag bit set is accepted, and decode∘encode∘decode changes the message (flags 2 become 3)',
+           'channel_update whose message_flags byte is even and non-zero', 'demo_c13b',
+           'C13: gen_msg_schemas.py TRANSLATE-ERROR (the low-bit check is part of the extracted reader shape); correspondence on `dec UnsignedChannelUpdate …`; impl oracle "re-encoding of decoded UnsignedChannelUpdate does not decode to an equal message" with the bytes'),
+ 'C14-b': ('C14', 'decode_fulfill_attribution_data indexes hold times with path.hops.len() instead of the attributable hop count: for fulfilled payments over more than 20 hops the sender panics in AttributionData::verify / misreports hold times',
+           'path of >= 21 unblinded hops whose update_fulfill_htlc carries attribution data', 'demo_c14b',
+           'C14: gen_onion_fail.py TRANSLATE-ERROR (sha256 pin of decode_fulfill_attribution_data, whose hand-written mirror the theorems are about) and the real code panics on the harness\'s >20-hop fulfil chains; ./check reports the op history as the failing input'),
+ 'C18-b': ('C18', 'Description::new measures the 639 limit in characters instead of UTF-8 bytes: the builder accepts descriptions a tagged field cannot carry; hashing / signing / serialising then panics (assert!(len < 1024))',
+           'non-ASCII description of more than 639 bytes but at most 639 characters (e.g. 320 x "é")', 'demo_c18b',
+           'C18: gen_c18_bounds.py TRANSLATE-ERROR (untranslatable `chars().count()` in the pinned bound) + impl oracle "builder accepted a description of 640 bytes (320 characters of 2 bytes each) which a tagged field cannot carry". First run had no failing input (only ASCII descriptions at the boundary): multi-byte boundary cases added'),
+ 'C02-b': ('C02', 'ChannelContext::force_shutdown fails backwards every outbound HTLC `included_in_commitment(true)` instead of only LocalAnnounced ones: force-closing a channel with a held counterparty-commitment update refunds upstream HTLCs the next hop can still claim on chain',
+           'outbound channel with an RAA-blocked (held) monitor update containing a new counterparty commitment, another forwarded HTLC Committed on it, force-close before the release', 'demo_c02b', None),
+ 'C10-b': ('C10', 'reconcile_pending_htlcs_with_monitor matches a queued forward with a closed channel\'s forwarded HTLC by prev_htlc_id alone (not by inbound channel): on restart a never-forwarded HTLC of another inbound channel with a colliding id is silently dropped',
+           'legacy reload path, a channel closed at load time whose monitor lists a forwarded HTLC (U1, id k), the written manager holds a pending forward from (U2 != U1, id k)', 'demo_c10b', None),
+ 'C11-b': ('C11', 'ChannelMonitorImpl::blocks_disconnected (Listen path) retains `entry.height < new_height` instead of `<=`: a reorg also discards pending on-chain events of transactions confirmed IN the fork-point block',
+           'chain data via Listen::blocks_disconnected, fork point exactly the block in which a monitor-relevant transaction confirmed < ANTI_REORG_DELAY blocks earlier', 'demo_c11b',
+           'C11: gen_claims.py TRANSLATE-ERROR (retain condition pinned) ; correspondence on `disc` ops (impl aw=- vs model aw=1.1.11.154,…); impl oracle O4 "styles disagree at the end" (FullBlockViaListen vs the Confirm styles) with the scenario'),
+ 'C06-b': ('C06', 'filter_block recognises a same-block child transaction only through its FIRST input: a second-stage HTLC tx confirmed in the same block as the revoked commitment whose first input is a fee input is dropped, its outputs are never punished',
+           'anchor channel, revoked commitment and an HTLC tx with a fee input placed first in the same block, whole-block delivery', 'demo_c06b', None),
+ 'C07-b': ('C07', 'get_spendable_outputs takes the DelayedPaymentOutputDescriptor\'s to_self_delay from on_counterparty_tx_csv instead of on_holder_tx_csv: after a holder-side close the SpendableOutputs event comes at the wrong height with an unusable descriptor',
+           'the two peers chose different our_to_self_delay values; holder-side unilateral close', 'demo_c07b', None),
+ 'C12-b': ('C12', 'ChannelLiquidity reader swaps TLV 9 and 11 (last_datapoint_time / offset_history_last_updated): a reloaded ProbabilisticScorer has the two timestamps exchanged',
+           'scorer serialized after time_passed decayed the historical buckets of a channel without new data (> 14 days idle)', 'demo_c12b',
+           'C12: regenerated TlvFieldPairs.lean breaks writer_reader_fields_agree / field_exceptions_exact; impl oracle "ProbabilisticScorer over the graph of node 0 does not round trip" with the bytes. First run had no failing input (no long-idle scorer states): long idle steps + time_passed added to the scorer histories'),
 }
 DET = {}
 p = os.path.join(ROOT, 'seeded', 'detected_by.json')
